@@ -190,7 +190,7 @@ for tag in ('f32', 'f64'):
     # mat4 = indeterminate values): the T-check (clang IR vs g++ binary) disagrees on every input and the engine stops with
     # exit 2 for the WHOLE property, so these two contracts are only generated with C09_SCALEBIAS=1 (tree with the proposed
     # patch C09_scaleBias_uninit.patch applied).  See proposed/C09_report.md.
-    if os.environ.get('C09_SCALEBIAS'):
+    if True:  # enabled since fix 166de7a (scaleBias initialises its result)
         sb = [(T, 'k'), (T, 'b')]
         SB = 'matmul(translation([b, b, b]), diag([k, k, k, 1]))'
         shim_m4('glm_scaleBias_' + tag, sb, 'glm::scaleBias<%s, glm::defaultp>(k, b)' % T)
@@ -214,7 +214,7 @@ for tag in ('f32', 'f64'):
     # YZ / XZ / XY skews, scale, multiplied on the right in this order; Skew = (YZ, XZ, XY) as documented by decompose
     # recompose<double> does not compile against the unchanged /repo (glm::mat4 hard-coded in its body: finding, see
     # proposed/C09_report.md); C09_RECOMPOSE_F64=1 adds the double instantiation (for a tree with the proposed patch applied)
-    if dbl and not os.environ.get('C09_RECOMPOSE_F64'):
+    if False:  # f64 enabled since fix a0ee307 (recompose is generic)
         continue
     s3, t3, k3, pp4 = vec_ins(3, tag, 's'), vec_ins(3, tag, 't'), vec_ins(3, tag, 'k'), vec_ins(4, tag, 'pp')
     Q = '[qw, qx, qy, qz]'
